@@ -106,6 +106,9 @@ func MakeSecretConnection(conn io.ReadWriteCloser, locPrivKey crypto.PrivKey) (*
 		return nil, err
 	}
 	remPubKey, remSignature := authSigMsg.Key, authSigMsg.Sig
+	if remPubKey == nil || remSignature == nil {
+		return nil, errors.New("Challenge verification failed: missing key or signature")
+	}
 	if !remPubKey.VerifyBytes(challenge[:], remSignature) {
 		return nil, errors.New("Challenge verification failed")
 	}
@@ -319,6 +322,12 @@ func shareAuthSignature(sc *SecretConnection, pubKey crypto.PubKey, signature cr
 				return
 			}
 			length := int(binary.LittleEndian.Uint32(lengthBs))
+			// the body is read with a single Read, i.e. from one frame: bound the
+			// peer-supplied length before allocating from it (nothing is authenticated yet)
+			if length <= 0 || length > dataMaxSize {
+				err2 = fmt.Errorf("auth message of %d bytes", length)
+				return
+			}
 			// receive body
 			readBuffer := make([]byte, length)
 			_, err2 = sc.Read(readBuffer)
